@@ -357,7 +357,7 @@ class GitlabArtifactsFiles(abc.FileHandler):
         filename: str | pathlib.PurePosixPath,
         mode: t.Literal["r", "rb", "w", "wb"] = "rb",
     ) -> t.BinaryIO:
-        path = str(helpers.normalize_pure_path(filename, base=self.subdir))
+        path = str(self.subdir / helpers.normalize_pure_path(filename))
 
         if "w" in mode:
             raise TypeError("Cannot write to Gitlab artifacts")
